@@ -146,7 +146,7 @@ class Obligation:
         return self
 
 
-def await_or_deadlock(is_done, director, log, wall_timeout=30.0, checks=3, check_gap=0.05, poll=0.005):
+def await_or_deadlock(is_done, director, log, wall_timeout=30.0, checks=3, check_gap=0.05, poll=0.005, harness_busy=None):
     """Wait until ``is_done()``.  Returns 'done', 'deadlock' or 'timeout'.
 
     deadlock: not done, nothing parked by the director, and the process is
@@ -154,10 +154,11 @@ def await_or_deadlock(is_done, director, log, wall_timeout=30.0, checks=3, check
     event counter frozen.
     """
     with polling():
-        return _await_or_deadlock(is_done, director, log, wall_timeout, checks, check_gap, poll)
+        return _await_or_deadlock(is_done, director, log, wall_timeout, checks, check_gap, poll, harness_busy)
 
 
-def _await_or_deadlock(is_done, director, log, wall_timeout, checks, check_gap, poll):
+def _await_or_deadlock(is_done, director, log, wall_timeout, checks, check_gap, poll, harness_busy=None):
+    # harness_busy(): the harness itself still owes the library a step (e.g. a stub completion not delivered yet): no verdict then
     end = time.monotonic() + wall_timeout
     while time.monotonic() < end:
         if is_done():
@@ -167,7 +168,7 @@ def _await_or_deadlock(is_done, director, log, wall_timeout, checks, check_gap, 
             return 'done'
         if director is not None and (director.parked_keys() or director.sleeping):
             continue
-        if PAUSED[0]:
+        if PAUSED[0] or (harness_busy is not None and harness_busy()):
             continue
         if not quiescent(director=director):
             continue
@@ -179,6 +180,7 @@ def _await_or_deadlock(is_done, director, log, wall_timeout, checks, check_gap, 
             if is_done():
                 return 'done'
             if (log is not None and log.counter() != n0) or PAUSED[0] or not quiescent(director=director) or PAUSED[0] or (
+                harness_busy is not None and harness_busy()) or (
                 director is not None and (director.parked_keys() or director.sleeping)
             ):
                 confirmed = False
